@@ -22,12 +22,12 @@ SPEC = {
         "AddBinding is read as 'add or update the IPv4 address' (a previously added IPv6 binding should survive)",
     ],
     "trusted_extra": ["clang 14 (BPF and x86-64 back ends), shim bpf_helpers.h, native runner cbpf/native/runner.c, Linux 6.18 BPF verifier/interpreter under BPF_PROG_TEST_RUN, cilium/ebpf v0.12.3 loader and map marshalling (measured through real kernel maps)"],
-    "modelled": ["bpf/antispoof.c antispoof_ingress (all branches, LPM lookup)", "pkg/antispoof/manager.go NewManager, AddBinding, AddBindingV6, RemoveBinding, SetMode, AddAllowedRange"],
+    "modelled": ["bpf/antispoof.c antispoof_ingress (all branches, LPM lookup), mac_to_u64 with the C type of every intermediate value (integer promotion, __u64 casts, usual arithmetic conversions), ethertype / saddr / IPv6-loop / LPM-key derivations", "pkg/antispoof/manager.go NewManager, AddBinding, AddBindingV6, RemoveBinding, SetMode, AddAllowedRange, macToUint64"],
 }
 
 MANIFEST = {
-    "text": "Model of bpf/antispoof.c in checked-access style (every data_end test explicit) and of what pkg/antispoof/manager.go writes into the maps. Theorems for all maps and all frames: strict mode forwards iff the source equals the bound IPv4/IPv6 address; log-only and disabled forward everything; non-IP, short and truncated frames are forwarded; no read outside the frame; loose mode (IPv4) forwards iff the source is in an allowed range (full after fix d9f017c, which repaired 'loose mode drops every bound subscriber'). Refuted with witnesses replayed on the real code (known findings): bindings written by the manager are byte-reversed (strict drops the legitimate source, admits the mirror image; partial theorem for palindromic addresses), AddBinding erases the IPv6 binding (partial: v4 then v6), no IPv6 range check in loose mode, ranges byte-reversed. Every run recompiles antispoof.c, loads it in the kernel (verifier), lets the real Manager write real kernel maps (incl. the kernel LPM trie) and executes every frame natively (guard page, any length) and under BPF_PROG_TEST_RUN; kernel and native verdicts must agree.",
-    "note": "Theorems are about the hand-written Model; the tie is exhaustive over the discrete configuration fields and sampled over addresses and control-plane histories. Start(), statistics, perf events and concurrency are outside the Model.",
+    "text": "Model of bpf/antispoof.c in checked-access style (every data_end test explicit) and of what pkg/antispoof/manager.go writes into the maps. Theorems for all maps and all frames: strict mode forwards iff the source equals the bound IPv4/IPv6 address; log-only and disabled forward everything; non-IP, short and truncated frames are forwarded; no read outside the frame; loose mode (IPv4) forwards iff the source is in an allowed range (full after fix d9f017c, which repaired 'loose mode drops every bound subscriber'). Key derivation: the C expression of mac_to_u64 is evaluated with C integer semantics (unsigned char promoted to int, per-octet __u64 cast, 64-bit shift, OR) and proved equal to the Go macToUint64 key for all MACs (48-bit domain, by arithmetic on disjoint bit fields), injective, and equal to the 48-bit big-endian form; a binding written through the manager is found for its own MAC and changes nothing for any other MAC; RemoveBinding after any control-plane history leaves no binding for that MAC (one-entry-per-key invariant); AddBindingV6 under a strict manager after any history forwards an IPv6 frame iff its source is the bound address (24-byte-value invariant); the little-endian ethertype / saddr comparisons, the 16-round IPv6 loop with early break and the LPM key struct are proved equal to the byte-wise forms the Model uses. Refuted with witnesses replayed on the real code (known findings): bindings written by the manager are byte-reversed (strict drops the legitimate source, admits the mirror image; exact characterisation 'forwarded iff source = reversed address' for every address, partial theorem for palindromic addresses), AddBinding erases the IPv6 binding (partial: v4 then v6), no IPv6 range check in loose mode, ranges byte-reversed. Every run recompiles antispoof.c, loads it in the kernel (verifier), lets the real Manager write real kernel maps (incl. the kernel LPM trie) and executes every frame natively (guard page, any length) and under BPF_PROG_TEST_RUN; kernel and native verdicts must agree.",
+    "note": "Theorems are about the hand-written Model; the tie is exhaustive over the discrete configuration fields (modes, binding kinds, range kinds, mode matrix through the manager), over boundary octets {00,01,7f,80,ff} in every source-MAC position, over every frame length 0..62 (thorough 0..130) per ethertype, over all short control-plane sequences (two alphabets), and sampled over addresses, MACs and longer control-plane histories. Start(), statistics, perf events and concurrency are outside the Model.",
     "technique": "Rocq proof (case analysis over the program's decision tree, map get/put lemmas) + differential correspondence: kernel BPF_PROG_TEST_RUN and native guard-page execution of the compiled C against vm_compute evaluation of the Model, with a trace monitor",
     "design_ref": "DESIGN.md §8 C18, docs/C18.md, docs/BPF.md",
 }
